@@ -139,6 +139,12 @@ def check_substitutions(chk):
         if isinstance(call.func, ast.Attribute) and call.func.attr in ('replace', 'strip', 'rstrip', 'translate'):
             chk.bad('C14.S', vmod, 'value_json', norm(call)[:100], f'str.{call.func.attr}() is applied to the whole encoder output: it also changes the contents of string values and keys', node=call)
             continue
+        subject = call.args[-1] if call.args else None
+        if isinstance(subject, ast.Subscript) and isinstance(subject.slice, ast.Slice):
+            chk.bad('C14.S', vmod, 'value_json', norm(call)[:100],
+                    f'the clean-up substitution is applied to a slice of the encoder output ({norm(subject)}): a token-aware pattern that starts in the middle of a string token is out of step, so '
+                    f'string contents are rewritten and numbers after it keep their fraction', node=call)
+            continue
         rname = norm(call.func.value) if isinstance(call.func, ast.Attribute) else norm(call.args[0])
         rg = vmod.const(rname, 'C14.S') if rname in vmod.assigns else None
         if not isinstance(rg, Regex):
